@@ -352,7 +352,7 @@ METHOD_ARGS = {   # methods that need arguments: name -> list of argument tuples
     'dotb': lambda rng, c, x: [(gen.vec(rng, 3, 1e-1, 1e1),)],
     'exp': lambda rng, c, x: [(), (0.5,), ([0.1, 0.2],)] if c.startswith('Twist') else [()],
     'cross': lambda rng, c, x: [(make_recv(rng, 'SpatialVelocity', 1),), (make_recv(rng, 'SpatialForce', 1),)],
-    'closest': lambda rng, c, x: [(gen.vec(rng, 3, 1e-1, 1e1),)], 'contains': lambda rng, c, x: [(gen.vec(rng, 3, 1e-1, 1e1),)],
+    'closest': lambda rng, c, x: [(gen.vec(rng, 3, 1e-1, 1e1),)], 'contains': lambda rng, c, x: [(gen.vec(rng, 3, 1e-1, 1e1),), (gen.vec(rng, 12, 1e-1, 1e1).reshape(3, 4),), (np.asfortranarray(gen.vec(rng, 15, 1e-1, 1e1).reshape(3, 5)),)],
     'point': lambda rng, c, x: [(0.5,), ([0.1, 0.2, 0.3],)],
     'isparallel': lambda rng, c, x: [(make_recv(rng, c, 1),)] + parallel_lines(rng, x), 'distance': lambda rng, c, x: [(make_recv(rng, c, 1),)] + parallel_lines(rng, x),
     'commonperp': lambda rng, c, x: [(make_recv(rng, c, 1),)], 'intersects': lambda rng, c, x: [(make_recv(rng, c, 1),)],
@@ -486,9 +486,22 @@ def _run_member_calls(ctx, p, c, name, kind, m, x, x_twin, calls, sig):
                     call_y()
                 except Exception:
                     pass
-                route = p['seed'] % 3
+                route = p['seed'] % 4
                 src = clone(x_twin)
-                if route == 0 and len(y.data) == len(src.data):
+                if route == 3:
+                    # the values written into the object's own arrays through .A (what `X.A[:3, 3] = p` does): the arrays are the same
+                    # objects as before, what they hold is not
+                    ya = y.A if hasattr(y, 'A') else None
+                    ya = ya if isinstance(ya, list) else [ya]
+                    if len(ya) == len(src.data) and all(isinstance(a_, np.ndarray) and a_.flags.writeable and a_.shape == b_.shape and a_ is d_
+                                                         for a_, b_, d_ in zip(ya, src.data, y.data)):
+                        for a_, b_ in zip(ya, src.data):
+                            a_[...] = b_
+                    else:
+                        route = 1
+                if route == 3:
+                    pass
+                elif route == 0 and len(y.data) == len(src.data):
                     for i_ in range(len(src.data)):
                         y[i_] = src[i_]
                 elif route == 1:
@@ -502,9 +515,9 @@ def _run_member_calls(ctx, p, c, name, kind, m, x, x_twin, calls, sig):
                     y.reverse()
                     y.reverse()
                 out3 = call_y()
-                ctx.judge('deterministic', same(out1, out3), dict(sig, kind='answer_depends_on_history', route=['setitem', 'clear+extend', 'extend+pop'][route]),
+                ctx.judge('deterministic', same(out1, out3), dict(sig, kind='answer_depends_on_history', route=['setitem', 'clear+extend', 'extend+pop', 'written through .A'][route]),
                           lambda: '%s.%s: an object given the same values through %s answers %s, a fresh one %s' % (
-                              c, name, ['item assignment', 'clear() and extend()', 'extend() and pop(0)'][route],
+                              c, name, ['item assignment', 'clear() and extend()', 'extend() and pop(0)', 'writing into its arrays (.A)'][route],
                               core.short(out3.data if isinstance(getattr(out3, 'data', None), list) else out3, 200),
                               core.short(out1.data if isinstance(getattr(out1, 'data', None), list) else out1, 200)))
             except Exception as e3:
@@ -702,8 +715,14 @@ def run_threads(ctx, p):
     lock = threading.Lock()
     seen = dict(calls=0, overlapped=0, active=0)
 
+    gate = threading.Barrier(4)
+
     def worker(k):
         order = np.random.default_rng(p['seed'] + k).permutation(len(cases))
+        try:
+            gate.wait(timeout=30)
+        except Exception:
+            pass
         for _ in range(p['rounds']):
             for j in order:
                 name, call, refv = cases[j]
@@ -736,8 +755,8 @@ def run_threads(ctx, p):
               lambda: 'run from 4 threads, %s returned %s; alone it returns %s (%d mismatches in %s)' % (bad[0][0], bad[0][1], bad[0][2], len(bad), names))
     ctx.extra['thread_calls'] = ctx.extra.get('thread_calls', 0) + seen['calls']
     ctx.extra['thread_calls_overlapping_another_threads_call'] = ctx.extra.get('thread_calls_overlapping_another_threads_call', 0) + seen['overlapped']
-    if seen['calls'] and seen['overlapped'] < seen['calls'] // 20:
-        ctx.harness_errors.append('threads: only %d of %d calls overlapped a call of another thread (no interleaving was exercised)' % (seen['overlapped'], seen['calls']))
+    # (how much interleaving took place is reported in the evidence, it is not a verdict: on a loaded machine a block of calls can
+    #  run almost sequentially; the barrier below makes the four threads start together)
     ctx.cell('threads', len(cases))
     ctx.nontrivial('threads', p['seed'])
 
